@@ -235,6 +235,18 @@ Definition rtot_at (rows : list row) (x : N) : Z := sumZ (map (fun r => if N.eqb
 Definition rself_at (rows : list row) (x : N) : Z := sumZ (map (fun r => if N.eqb (r_id r) x then r_self r else 0%Z) rows).
 Definition rchild_tot (rows : list row) (x : N) : Z := sumZ (map (fun r => if N.eqb (r_parent r) x then r_total r else 0%Z) rows).
 
+(* ------------------------------------------------------------------ a checkable form of the hypotheses of levels_nest
+   on a tree [ns]: parent keys distinct, node ids distinct over the whole tree and non-zero, self and total
+   non-negative, exact conservation (no overflow), every parent is the root or a node, root total below 2^63 *)
+Definition tree_regular (ns : list (N * list tnode)) : bool :=
+  let out := rows_of ns in
+  ids_distinct (map fst ns) &&
+  ids_distinct (map r_id out) &&
+  forallb (fun o => negb (N.eqb (r_id o) 0) && Z.leb 0 (r_self o) && Z.leb 0 (r_total o) &&
+                    Z.eqb (r_total o) (r_self o + rchild_tot out (r_id o)) &&
+                    (N.eqb (r_parent o) 0 || existsb (fun q => N.eqb (r_id q) (r_parent o)) out)) out &&
+  Z.ltb (rchild_tot out 0) two63.
+
 (* projection of a stored row on sample type [k] (None: the profile lacks the selected type; the SQL
    arrayFirst then yields the default tuple, i.e. zeros) -- trusted model of the SQL of PlanMergeTraces *)
 Definition project_row (k : option nat) (n : node) : row :=
